@@ -50,3 +50,6 @@ PLAN.update({
 SUITES["time7"] = dict(mc="MC_Seq")
 
 PLAN["C07"] = dict(quick=["time7"], thorough=["time7"])
+
+SUITES["time8"] = dict(mc="MC_Seq")
+PLAN["C08"] = dict(quick=["time8"], thorough=["time8"])
